@@ -25,6 +25,14 @@ void harness(void) {
   _mzd_trsm_upper_left(&t, &b, cutoff);
 #elif defined(H_TRTRI)
   mzd_trtri_upper(&t);
+#elif defined(H_LL_W)
+  mzd_trsm_lower_left(&t, &b, cutoff);
+#elif defined(H_UL_W)
+  mzd_trsm_upper_left(&t, &b, cutoff);
+#elif defined(H_UR_W)
+  mzd_trsm_upper_right(&t, &b, cutoff);
+#elif defined(H_LR_W)
+  mzd_trsm_lower_right(&t, &b, cutoff);
 #endif
 #ifdef VP_CANARY
   __CPROVER_assert(0, "canary: call returns under the pre-condition");
